@@ -22,9 +22,9 @@ import SarpyModel.Spec.Remap
 namespace Sarpy.Drivers
 open Sarpy.Spec.Remap
 
-instance : NatCast Float := ⟨Float.ofNat⟩
+instance remapNatCastFloat : NatCast Float := ⟨Float.ofNat⟩
 
-instance : RemapFns Float where
+instance remapFnsFloat : RemapFns Float where
   log10 := Float.log10
   log2 := Float.log2
   trunc x := x.toUInt64.toNat
